@@ -326,10 +326,22 @@ def c2s(ctx, fmt, ntraces, maxops):
             raise core.MachineryError("cannot create start object %s: %r" % (name, e))
         nops = 0 if i < len(st) else rng.randint(1, maxops)
         hist_seed = rng.randrange(1 << 30)
-        (edit_sm if fmt == "sm" else edit_ssc)(random.Random(hist_seed), sf, nops)
+        hrng = random.Random(hist_seed)
+        if nops >= 2 and i % 2 == 0:
+            # serialize in the middle of the history (a read must not influence what is written later)
+            first = hrng.randint(1, nops - 1)
+            (edit_sm if fmt == "sm" else edit_ssc)(hrng, sf, first)
+            try:
+                str(sf)
+                [str(c) for c in sf.charts]
+            except Exception:  # noqa
+                pass
+            (edit_sm if fmt == "sm" else edit_ssc)(hrng, sf, nops - first)
+        else:
+            (edit_sm if fmt == "sm" else edit_ssc)(hrng, sf, nops)
         rec, text = cc.ser_record(sf, i)
         recs.append(rec)
-        meta[i] = {"mode": "c2s", "fmt": fmt, "start": name, "nops": nops, "hist_seed": hist_seed}
+        meta[i] = {"mode": "c2s", "fmt": fmt, "start": name, "nops": nops, "hist_seed": hist_seed, "i": i}
     verdict = cc.validate(ctx, recs)
     pid = "C01" if fmt == "sm" else "C02"
     excluded = 0
@@ -367,7 +379,18 @@ def replay_c2s(case):
     for name, mk in starts(fmt):
         if name == case["start"]:
             sf = mk()
-            (edit_sm if fmt == "sm" else edit_ssc)(random.Random(case["hist_seed"]), sf, case["nops"])
+            hrng = random.Random(case["hist_seed"])
+            if case["nops"] >= 2 and case.get("i", 1) % 2 == 0:
+                first = hrng.randint(1, case["nops"] - 1)
+                (edit_sm if fmt == "sm" else edit_ssc)(hrng, sf, first)
+                try:
+                    str(sf)
+                    [str(c) for c in sf.charts]
+                except Exception:  # noqa
+                    pass
+                (edit_sm if fmt == "sm" else edit_ssc)(hrng, sf, case["nops"] - first)
+            else:
+                (edit_sm if fmt == "sm" else edit_ssc)(hrng, sf, case["nops"])
             return sf
     raise core.MachineryError("unknown start " + case["start"])
 
